@@ -38,7 +38,7 @@ def ref_lonlat(X, Y):
 def oracle(scn) -> core.CaseResult:
     res = core.CaseResult()
     res.cls(scn["output"]["layout"])
-    if scn["output"].get("pack_age"):
+    if scn["output"].get("pack_age") or scn["output"].get("pack_xy"):
         res.cls("packed_variable")
     with e2e.workdir() as d:
         r, meta = sim.run(d, scn)
@@ -143,7 +143,11 @@ def check_records(res, d, names, writes, ref, scn):
                             res.check(ok, "lonlat", f"{name} rec {n}: {var} {vals} expected {want}")
                             continue
                         vd = "i4" if var in ("pid", "tag") else dtype
-                        res.check(enc_equal(vals, snap[var], vd), "instance_value",
+                        if var in ("X", "Y") and o.get("pack_xy"):
+                            okv = np.allclose(vals, snap[var], rtol=0, atol=0.5 * o["pack_xy"] * (1 + 1e-6))
+                        else:
+                            okv = enc_equal(vals, snap[var], vd)
+                        res.check(okv, "instance_value",
                                   f"{name} rec {n} step {step}: {var} = {vals}, state had {snap[var]}")
                 else:
                     for var, arr in f["inst"].items():
@@ -161,6 +165,8 @@ def check_records(res, d, names, writes, ref, scn):
                         got = np.array([row[p] for p in pids])
                         if var in ("lon", "lat"):
                             ok = np.allclose(got, want, rtol=0, atol=1e-9 if dtype == "f8" else 1e-4)
+                        elif var in ("X", "Y") and o.get("pack_xy"):
+                            ok = np.allclose(got, want, rtol=0, atol=0.5 * o["pack_xy"] * (1 + 1e-6))
                         else:
                             ok = enc_equal(got, want, "i4" if var == "tag" else dtype)
                         res.check(ok, "instance_value" if var not in ("lon", "lat") else "lonlat",
@@ -233,6 +239,7 @@ def pid_law_oracle(scn) -> core.CaseResult:
 def cases(draw):
     scn = draw(sim.scenario(dtypes=("f8", "f8", "f4")))
     scn["output"]["pack_age"] = draw(st.sampled_from([None, None, None, [0.25, -3.0], [0.5, 0.0]]))
+    scn["output"]["pack_xy"] = draw(st.sampled_from([None, None, None, 0.01, 0.001]))
     return scn
 
 
